@@ -113,7 +113,7 @@ def call_has_keyword(file, method, keyword, expected_src, min_calls=1):
     return rec
 
 
-def call_passes_param(qualname, method, arg_index, param, min_calls=1):
+def call_passes_param(qualname, method, arg_index, param, min_calls=1, keyword=None):
     """Precondition-at-call-site obligation: inside the function `qualname`, every call `<obj>.<method>(...)`
     passes the function's own parameter `param` — the whole object, not a slice or copy — as positional
     argument `arg_index`, and `param` is never re-bound in the function."""
@@ -128,7 +128,15 @@ def call_passes_param(qualname, method, arg_index, param, min_calls=1):
     if param not in [a.arg for a in fn.args.args]:
         rec["detail"] = f"contract drift: no parameter {param}"
         return rec
+    none_defaults = set()  # statements of `if <param> is None: <param> = ...` (creating the default object is not a re-binding of a passed one)
+    for n in fn.body:
+        if isinstance(n, ast.If) and isinstance(n.test, ast.Compare) and isinstance(n.test.left, ast.Name) and n.test.left.id == param \
+                and len(n.test.ops) == 1 and isinstance(n.test.ops[0], ast.Is) and isinstance(n.test.comparators[0], ast.Constant) \
+                and n.test.comparators[0].value is None and not n.orelse:
+            none_defaults.update(id(x) for x in n.body)
     for n in ast.walk(fn):
+        if id(n) in none_defaults:
+            continue
         targets = []
         if isinstance(n, ast.Assign):
             targets = n.targets
@@ -142,14 +150,18 @@ def call_passes_param(qualname, method, arg_index, param, min_calls=1):
                     rec["status"] = "violated"
                     rec["detail"] = f"line {getattr(n, 'lineno', '?')}: parameter {param} is re-bound"
                     return rec
-    calls = [n for n in ast.walk(fn) if isinstance(n, ast.Call) and isinstance(n.func, ast.Attribute) and n.func.attr == method]
-    rec["vc"] = f"{len(calls)} call site(s) of .{method}() in {qualname}"
+    calls = [n for n in ast.walk(fn) if isinstance(n, ast.Call) and (
+        (isinstance(n.func, ast.Attribute) and n.func.attr == method) or (isinstance(n.func, ast.Name) and n.func.id == method))]
+    rec["vc"] = f"{len(calls)} call site(s) of {method}() in {qualname}"
     if len(calls) < min_calls:
         rec["detail"] = f"only {len(calls)} call sites found, expected >= {min_calls} (contract drift)"
         return rec
     for c in calls:
-        if len(c.args) <= arg_index or not (isinstance(c.args[arg_index], ast.Name) and c.args[arg_index].id == param):
-            got = ast.unparse(c.args[arg_index]) if len(c.args) > arg_index else "<missing>"
+        actual = c.args[arg_index] if len(c.args) > arg_index else None
+        if actual is None and keyword is not None:
+            actual = next((k.value for k in c.keywords if k.arg == keyword), None)
+        if not (isinstance(actual, ast.Name) and actual.id == param):
+            got = ast.unparse(actual) if actual is not None else "<missing>"
             rec["status"] = "violated"
             rec["detail"] = f"line {c.lineno}: .{method}(...) receives `{got}` where the whole `{param}` is required"
             return rec
